@@ -886,6 +886,15 @@ def pymethod(ex, o, name, args, kw):
             parts = ex.iterate(args[0])
             if isinstance(o, str) and all(isinstance(p, str) for p in parts):
                 return o.join(parts)
+            if isinstance(o, str) and all(isinstance(p, (str, OpaqueStr)) for p in parts):
+                # a join of finitely many known pieces is their concatenation: keep the pieces (see binop Add)
+                r = OpaqueStr("concat")
+                r.parts = []
+                for i_, p in enumerate(parts):
+                    if i_ and o:
+                        r.parts.append(o)
+                    r.parts += list(p.parts) if isinstance(p, OpaqueStr) and p.desc == "concat" and hasattr(p, "parts") else [p]
+                return r
             return OpaqueStr("join")
         s = tostr(o)
         if name == "upper":
